@@ -66,6 +66,7 @@ class Registry:
         self.spec_forms = {"old": sf_old, "implies": sf_implies, "forall": sf_forall, "forallq": sf_forall, "exists": sf_exists,
                            "ite": sf_ite, "fresh_old": sf_old}
         self.native_specs = {}      # name -> (symbolic fn(ex, state, *V) -> V, concrete fn)
+        self.type_aliases = {}      # "@name" -> type text
         self.exception_classes = {}
         self.overrides = {}
         self.current = None
@@ -173,7 +174,9 @@ class Registry:
     # -------- fresh symbolic values
     def fresh(self, ex, state, typ, name, path=None):
         typ = typ.strip()
-        if "|" in typ:
+        if typ.startswith("@"):
+            typ = self.type_aliases[typ[1:]]        # named type (keeps nested unions readable / parseable)
+        if "|" in typ and not typ.startswith(("odict:", "cdict:")):
             alts = [t.strip() for t in _split_top(typ, "|")]
             vals = [self.fresh(ex, state, t, name, path) for t in alts]
             sel = z3.Int(fresh_name(name + "?alt"))
@@ -277,6 +280,19 @@ class Registry:
             for item in _split_top(typ[6:], ","):
                 k, t = item.split("=", 1)
                 o.d[k] = self.fresh(ex, state, t, name + "_" + k)
+            return r
+        if typ.startswith("odict:"):
+            # dict over a known key universe, each key optionally present:  odict:key=type,key=type
+            o = HObj("dict")
+            o.d = {}
+            o.opt = {}
+            r = state.alloc(o)
+            for item in _split_top(typ[6:], ","):
+                k, t = item.split("=", 1)
+                o.d[k] = self.fresh(ex, state, t, name + "_" + k)
+                o.opt[k] = z3.Bool(fresh_name(name + "_has_" + k))
+            if path:
+                state.paths[r.oid] = path
             return r
         if typ.startswith("dict:"):
             from . import models
